@@ -39,7 +39,7 @@ pub(super) fn merge_node_matches_snapshot<S: GraphSnapshot>(
     }
 
     for (k, v) in props {
-        if snapshot.node_property(iid, k) != Some(merge_storage_property_to_api(v)) {
+        if !merge_property_matches(snapshot.node_property(iid, k), &merge_storage_property_to_api(v)) {
             return false;
         }
     }
@@ -58,7 +58,10 @@ pub(super) fn merge_node_matches_overlay(
         }
     }
     for (k, v) in props {
-        if node.props.get(k) != Some(v) {
+        if !merge_property_matches(
+            node.props.get(k).map(merge_storage_property_to_api),
+            &merge_storage_property_to_api(v),
+        ) {
             return false;
         }
     }
@@ -135,7 +138,7 @@ pub(super) fn merge_edge_matches_snapshot<S: GraphSnapshot>(
     props: &std::collections::BTreeMap<String, PropertyValue>,
 ) -> bool {
     for (k, v) in props {
-        if snapshot.edge_property(edge, k) != Some(merge_storage_property_to_api(v)) {
+        if !merge_property_matches(snapshot.edge_property(edge, k), &merge_storage_property_to_api(v)) {
             return false;
         }
     }
@@ -147,7 +150,10 @@ pub(super) fn merge_edge_matches_overlay(
     props: &std::collections::BTreeMap<String, PropertyValue>,
 ) -> bool {
     for (k, v) in props {
-        if edge.props.get(k) != Some(v) {
+        if !merge_property_matches(
+            edge.props.get(k).map(merge_storage_property_to_api),
+            &merge_storage_property_to_api(v),
+        ) {
             return false;
         }
     }
@@ -241,4 +247,36 @@ pub(super) fn merge_create_node(
     }
     *created_count += 1;
     Ok(iid)
+}
+
+/// MERGE tests pattern properties with Cypher equality, like MATCH does: `1` matches `1.0`,
+/// NaN matches nothing, lists and maps compare element-wise.
+fn merge_property_matches(
+    actual: Option<nervusdb_api::PropertyValue>,
+    wanted: &nervusdb_api::PropertyValue,
+) -> bool {
+    use nervusdb_api::PropertyValue as P;
+    fn int_equals_float(i: i64, f: f64) -> bool {
+        f.is_finite()
+            && f.fract() == 0.0
+            && (-9_223_372_036_854_775_808.0..9_223_372_036_854_775_808.0).contains(&f)
+            && (f as i64) == i
+    }
+    fn equals(a: &P, b: &P) -> bool {
+        match (a, b) {
+            (P::Null, _) | (_, P::Null) => false,
+            (P::Int(x), P::Float(y)) | (P::Float(y), P::Int(x)) => int_equals_float(*x, *y),
+            (P::Float(x), P::Float(y)) => x == y,
+            (P::List(x), P::List(y)) => {
+                x.len() == y.len() && x.iter().zip(y).all(|(p, q)| equals(p, q))
+            }
+            (P::Map(x), P::Map(y)) => {
+                x.len() == y.len()
+                    && x.iter()
+                        .all(|(k, p)| y.get(k).is_some_and(|q| equals(p, q)))
+            }
+            _ => a == b,
+        }
+    }
+    actual.is_some_and(|value| equals(&value, wanted))
 }
